@@ -88,6 +88,9 @@ def check(run: Run) -> None:
     from ..report import Relabel
     from .c04 import check_snapshot
 
+    from .c04 import check_attribute_fold
+
+    check_attribute_fold(run, TermCtx(m, max_depth=2, opaque={"as_literal", "_parse_source_for_lambda"}), m, "C13.R4")
     check_snapshot(Relabel(run, "C13.R4"), TermCtx(m, max_depth=2, opaque={"as_literal", "_parse_source_for_lambda"}), m, m.find_class("_rewrite_captured_vars", in_module="func_adl.util_ast"))
 
     # ---------------- R2
